@@ -3,6 +3,7 @@ package checks
 import (
 	"fmt"
 	"os"
+	"reflect"
 	"sort"
 	"strings"
 	"unicode/utf8"
@@ -34,6 +35,8 @@ func c18Decl(layout int, subOpt bool, defaultOpts bool) *decl.Decl {
 		{Field: "ShortOnly", Short: "x", Type: decl.TBool},
 		{Field: "HiddenShort", Short: "y", Type: decl.TBool, Hidden: "yes"},
 		{Field: "Umlaut", Short: "ü", Long: "umlaut", Type: decl.TWords2},
+		{Field: "Color", Short: "c", Long: "color", Type: decl.TOnOff},
+		{Field: "PW", Long: "pw", Type: decl.TPWords},
 	}}
 	deep := &decl.Cmd{Field: "Deep", Name: "deep", Opts: []*decl.Opt{{Field: "Depth", Long: "depth", Type: decl.TInt}}}
 	add := &decl.Cmd{Field: "Add", Name: "add", Aliases: []string{"a2"}, SubOptional: true, Cmds: []*decl.Cmd{deep}, Opts: []*decl.Opt{
@@ -70,10 +73,10 @@ func c18Decl(layout int, subOpt bool, defaultOpts bool) *decl.Decl {
 
 var c18Units = [][]string{
 	{"-v"}, {"--verbose"}, {"-f"}, {"-f", "alpha"}, {"--file=alpha"}, {"-fbeta"}, {"-vf"}, {"-o"}, {"--opt=x"}, {"-n", "5"}, {"--num"},
-	{"add"}, {"a2"}, {"rm"}, {"deep"}, {"adx"}, {"zz"}, {"alpha"}, {"7"}, {"--"}, {"--force"}, {"--from", "gamma"}, {"-x"}, {"-ü", "gamma"}, {"-ü"}, {"-vü"},
+	{"add"}, {"a2"}, {"rm"}, {"deep"}, {"adx"}, {"zz"}, {"alpha"}, {"7"}, {"--"}, {"--force"}, {"--from", "gamma"}, {"-x"}, {"-ü", "gamma"}, {"-ü"}, {"-vü"}, {"--color", "on"}, {"-c"}, {"--pw"},
 }
 
-var c18Last = []string{"", "-", "--", "--v", "--ve", "--f", "--x", "--s", "-v", "-f", "-fal", "-f=al", "--file=al", "--file=", "--from=", "--from=a", "--num=", "al", "a", "ad", "r", "zz", "g", "d", "h", "--de", "-o", "--opt=", "be", "-ü", "-üal", "-ü=g", "--u"}
+var c18Last = []string{"", "-", "--", "--v", "--ve", "--f", "--x", "--s", "-v", "-f", "-fal", "-f=al", "--file=al", "--file=", "--from=", "--from=a", "--num=", "al", "a", "ad", "r", "zz", "g", "d", "h", "--de", "-o", "--opt=", "be", "-ü", "-üal", "-ü=g", "--u", "--pw=al", "--c"}
 
 func wordsMatching(list []string, prefix string) []string {
 	var out []string
@@ -89,6 +92,9 @@ func wordsMatching(list []string, prefix string) []string {
 func completerWords(t *decl.Type) ([]string, bool) {
 	rt := t.RT
 	if t.IsSlice() {
+		rt = rt.Elem()
+	}
+	for rt.Kind() == reflect.Ptr {
 		rt = rt.Elem()
 	}
 	switch rt {
@@ -109,8 +115,8 @@ func init() {
 		defOpts := c.Bool()
 		lateAPI := c.Deviate(2) == 1 // built through the API; the parser's group is added after the commands and after a first completion and parse
 		maxDepth := 3
-		if !c.Thorough && defOpts {
-			maxDepth = 2 // quick: the HelpFlag variants only differ by the built-in help options
+		if !c.Thorough && (defOpts || layout == 1 || layout == 3) {
+			maxDepth = 2 // quick: the HelpFlag variants only differ by the built-in help options; two of the five layouts stay at 2
 		}
 		if c.Thorough && layout == 2 && !defOpts {
 			maxDepth = 4
@@ -341,8 +347,8 @@ func init() {
 		ShardDepth: 5,
 		Body:       body,
 		Rule: "declaration with Completer-typed options (short+long, long-only, a multi-byte short name, two different word lists), an optional-argument option, hidden long and hidden short-only options, hidden command, short-only option, commands sharing a prefix (add, adx), alias, sub-subcommand; " +
-			"positionals of add in 5 layouts (none, [Words], [Words,int], [int,Words], [Words, ...Words2]) x subcommands-optional on the parser yes/no x HelpFlag yes/no x {struct tags, API build where a group of the parser is added after the commands and after a first completion and parse on the half-built parser}; every valid prefix (the CLM in prefix mode accepts it) of <= 3 units (quick: <= 2 on the HelpFlag variants; thorough: <= 4 on the [Words,int] layout without HelpFlag) over 26 units " +
-			"(flags, separate / attached / '=' arguments, pending option, cluster ending in a pending option, optional-argument option, command words and alias, plain words, numbers, terminator) x 33 partial last words; " +
+			"positionals of add in 5 layouts (none, [Words], [Words,int], [int,Words], [Words, ...Words2]) x subcommands-optional on the parser yes/no x HelpFlag yes/no x {struct tags, API build where a group of the parser is added after the commands and after a first completion and parse on the half-built parser}; every valid prefix (the CLM in prefix mode accepts it) of <= 3 units (quick: <= 2 on the HelpFlag variants and on two of the five positional layouts; thorough: <= 4 on the [Words,int] layout without HelpFlag) over 29 units " +
+			"(flags, separate / attached / '=' arguments, pending option, cluster ending in a pending option, optional-argument option, command words and alias, plain words, numbers, terminator) x 35 partial last words; " +
 			"oracle from the CLM context after the prefix: (a) '-' / '--p' => exactly the non-hidden options in scope with that prefix, (b) value position of a Completer-typed option or positional => exactly its words re-attached to the spelling, " +
 			"(c) otherwise the non-hidden subcommands with that prefix, (d) sorted, (e) every offered option/command re-parsed by the real parser at that position is not unknown, (f) the real parser's Active chain on the typed words equals the model's",
 		Assumptions:  []string{"left unasserted: option names after --, the echo of a complete short flag, value positions whose type has no completions, PassAfterNonOption"},
